@@ -13,7 +13,7 @@ Theorems about the hand-written model `CanvasModel/C19.lean` of the semantic lay
 (/repo/svg.go) over lexed element trees.  Part 1 is generic in the scalar type and in all matrix /
 builder operations (`Ops α`) and is proved by structural induction over arbitrary trees.  Part 2
 instantiates the model with the *generated* translations of /repo/util.go over an arbitrary linearly
-ordered field (`opsK`, `Path.checkDash` arbitrary) and compares what the importer does with what
+ordered field (`opsK`, DrawPath's dash decision arbitrary) and compares what the importer does with what
 SVG 1.1 assigns (state of /repo after the ParseSVG repairs a9d372e … 9d54694: dash lengths in user
 units, px→mm size, viewBox as min-x min-y width height, fill-rule, skew, both rect radii, miter limit,
 cascade order, selector subject, #id/[attr] lexing).  The one remaining recorded deviation from
@@ -203,7 +203,7 @@ end Generic
 /-! ## Part 2 — against SVG 1.1, over an ordered field with the generated matrix definitions -/
 section Field
 variable {K : Type} [Field K] [LinearOrder K] [IsStrictOrderedRing K] [Env K]
-variable (cd : K → List K → K → List K × Bool)
+variable (cd : K → K → List K → K → List K × Bool)
 
 /-! ### transform lists (SVG 1.1 §7.6) -/
 
@@ -302,40 +302,54 @@ theorem viewbox_maps (w h x y W H : K) (e : Bool) (lens : List K) (hW : 0 < W) (
     Matrix.Translate, Matrix.Scale, Matrix.ReflectYAbout, Matrix.Mul, Matrix.Dot]
   refine ⟨?_, ?_, ?_, ?_⟩ <;> congr 1 <;> field_simp <;> ring
 
-/-- SVG 1.1 §7.8, default preserveAspectRatio = xMidYMid meet: one scale factor s = min(w/W, h/H), the viewBox
-centred in the viewport; the point (x+u, y+v) of the viewBox lands at ((w - sW)/2 + s u, h - ((h - sH)/2 + s v)) -/
-def aspect_meet_statement : Prop :=
-  ∀ (w h x y W H u v : K) (e : Bool) (lens : List K), 0 < W → 0 < H → 0 < w → 0 < h →
-    Matrix.Dot (canvasMatrix (init (opsK cd) w h (x, y, W, H) e lens)) ⟨x + u, y + v⟩ =
-      ⟨(w - min (w / W) (h / H) * W) / 2 + min (w / W) (h / H) * u,
-       h - ((h - min (w / W) (h / H) * H) / 2 + min (w / W) (h / H) * v)⟩
-
-/-- **aspect** (partial: known finding C19-aspect-ratio): when the viewBox has the aspect ratio of the viewport
-(w/W = h/H) the view is the uniform scale of xMidYMid meet -/
-theorem aspect_meet_partial (w h x y W H u v : K) (e : Bool) (lens : List K) (hW : 0 < W) (hH : 0 < H)
-    (hsame : w / W = h / H) :
-    Matrix.Dot (canvasMatrix (init (opsK cd) w h (x, y, W, H) e lens)) ⟨x + u, y + v⟩ =
+/-- **aspect_meet** (94ad01a; SVG 1.1 §7.8, default preserveAspectRatio = xMidYMid meet): for every viewport w x h and
+viewBox x y W H, after `fitViewBox` the view has ONE scale factor s = min(w/W, h/H) and the viewBox is centred:
+the point (x+u, y+v) lands at ((w - sW)/2 + s u, h - ((h - sH)/2 + s v)) on the canvas (y up) -/
+theorem aspect_meet (w h x y W H u v : K) (e : Bool) (lens : List K) (hW : 0 < W) (hH : 0 < H) (hw : 0 < w) (hh : 0 < h) :
+    Matrix.Dot (canvasMatrix (init (opsK cd) w h (fitViewBox (opsK cd) w h (x, y, W, H)) e lens)) ⟨x + u, y + v⟩ =
       ⟨(w - min (w / W) (h / H) * W) / 2 + min (w / W) (h / H) * u,
        h - ((h - min (w / W) (h / H) * H) / 2 + min (w / W) (h / H) * v)⟩ := by
   have W0 : W ≠ 0 := ne_of_gt hW
   have H0 : H ≠ 0 := ne_of_gt hH
-  rw [← hsame, min_self]
-  have hh : h = w / W * H := by rw [hsame]; field_simp
-  simp only [canvasMatrix, init, defaultCtx, opsK, arithK, identK, hW, hH, decide_true, Bool.and_self, if_true,
-    Matrix.Translate, Matrix.Scale, Matrix.ReflectYAbout, Matrix.Mul, Matrix.Dot]
-  congr 1
-  · field_simp; ring
-  · rw [hh]; field_simp; ring
+  have w0 : w ≠ 0 := ne_of_gt hw
+  have h0 : h ≠ 0 := ne_of_gt hh
+  have sx0 : 0 < w / W := div_pos hw hW
+  have sy0 : 0 < h / H := div_pos hh hH
+  rcases lt_trichotomy (w / W) (h / H) with hlt | heq | hgt
+  · -- the width binds: s = w/W, the view box grows in y
+    have hm : min (w / W) (h / H) = w / W := min_eq_left (le_of_lt hlt)
+    have hpos : 0 < h / (w / W) := div_pos hh sx0
+    have hn : ¬ (h / H < w / W) := not_lt.mpr (le_of_lt hlt)
+    rw [hm]
+    simp only [fitViewBox, canvasMatrix, init, defaultCtx, opsK, arithK, identK, hW, hH, hw, hh, hlt, hpos, decide_true,
+      Bool.and_self, if_true, Nat.cast_ofNat,
+      Matrix.Translate, Matrix.Scale, Matrix.ReflectYAbout, Matrix.Mul, Matrix.Dot]
+    congr 1 <;> field_simp <;> ring
+  · have hm : min (w / W) (h / H) = w / W := by rw [heq, min_self]
+    have hn1 : ¬ (w / W < h / H) := by rw [heq]; exact lt_irrefl _
+    have hn2 : ¬ (h / H < w / W) := by rw [heq]; exact lt_irrefl _
+    have hh' : h = w / W * H := by rw [heq]; field_simp
+    rw [hm]
+    simp only [fitViewBox, canvasMatrix, init, defaultCtx, opsK, arithK, identK, hW, hH, hw, hh, hn1, hn2, decide_true,
+      decide_false, Bool.and_self, if_true, if_false, Bool.false_eq_true,
+      Matrix.Translate, Matrix.Scale, Matrix.ReflectYAbout, Matrix.Mul, Matrix.Dot]
+    congr 1
+    · field_simp; ring
+    · rw [hh']; field_simp; ring
+  · have hm : min (w / W) (h / H) = h / H := min_eq_right (le_of_lt hgt)
+    have hpos : 0 < w / (h / H) := div_pos hw sy0
+    have hn : ¬ (w / W < h / H) := not_lt.mpr (le_of_lt hgt)
+    rw [hm]
+    simp only [fitViewBox, canvasMatrix, init, defaultCtx, opsK, arithK, identK, hW, hH, hw, hh, hgt, hn, hpos, decide_true,
+      decide_false, Bool.and_self, if_true, if_false, Bool.false_eq_true, Nat.cast_ofNat,
+      Matrix.Translate, Matrix.Scale, Matrix.ReflectYAbout, Matrix.Mul, Matrix.Dot]
+    congr 1 <;> field_simp <;> ring
 
-/-- witness (known finding C19-aspect-ratio): a 200 x 100 viewport with viewBox 0 0 100 100 — the corner (100,100)
-of the viewBox lands on the canvas corner (200, 0) instead of (150, 0): the drawing is stretched -/
-theorem aspect_ignored_defect : ¬ aspect_meet_statement (K := K) cd := by
-  intro hst
-  have h := hst 200 100 0 0 100 100 100 100 false [] (by norm_num) (by norm_num) (by norm_num) (by norm_num)
-  simp only [canvasMatrix, init, defaultCtx, opsK, arithK, identK,
-    Matrix.Translate, Matrix.Scale, Matrix.ReflectYAbout, Matrix.Mul, Matrix.Dot] at h
-  have hx := congrArg Pt.x h
-  norm_num at hx
+/-- a view box that already has the aspect ratio of the viewport is left alone -/
+theorem fitViewBox_same (w h x y W H : K) (hsame : w / W = h / H) :
+    fitViewBox (opsK cd) w h (x, y, W, H) = (x, y, W, H) := by
+  have hn : ¬ (h / H < h / H) := lt_irrefl _
+  simp only [fitViewBox, opsK, arithK, hsame, hn, decide_false, Bool.false_eq_true, if_false, ite_self]
 
 /-! ### units (SVG 1.1 §7.10, CSS absolute units at 96 px per inch) -/
 
@@ -370,7 +384,7 @@ theorem units_linear (k parent : K) (u : String) (hu : u ∈ ["in", "cm", "mm", 
 /-- without width/height the canvas is the viewBox size converted from px to mm, and percentages
 refer to the viewBox width/height (any origin) -/
 theorem size_from_viewbox (x y W H : K) (e : Bool) (lens : List K) :
-    let r := parseViewBox (opsK cd) ⟨none, none, some (x, y, W, H)⟩
+    let r := parseViewBox (opsK cd) ⟨none, none, some (x, y, W, H), ""⟩
     r.1 = W * (254 / 10) / 96 ∧ r.2.1 = H * (254 / 10) / 96 ∧
     (init (opsK cd) r.1 r.2.1 r.2.2.1 e lens).width = W ∧ (init (opsK cd) r.1 r.2.1 r.2.2.1 e lens).height = H := by
   simp only [parseViewBox, init, opsK, arithK, Option.getD_some, Nat.cast_ofNat]
@@ -379,11 +393,11 @@ theorem size_from_viewbox (x y W H : K) (e : Bool) (lens : List K) :
 /-- **size**: a width/height attribute gives the canvas size: `width="n mm"` is a canvas n mm wide, a plain
 number is px = 25.4/96 mm, and without viewBox the user unit is the px (percentages refer to the px size) (6cc843f) -/
 theorem size_width_height (n m : K) (lens : List K) :
-    (parseSVG (opsK cd) ⟨some (n, "mm"), some (m, "mm"), none⟩ [] [] lens).cw = n ∧
-    (parseSVG (opsK cd) ⟨some (n, "mm"), some (m, "mm"), none⟩ [] [] lens).ch = m ∧
-    (parseSVG (opsK cd) ⟨some (n, ""), some (m, "px"), none⟩ [] [] lens).cw = n * (254 / 10) / 96 ∧
-    (parseSVG (opsK cd) ⟨some (n, ""), some (m, "px"), none⟩ [] [] lens).ch = m * (254 / 10) / 96 ∧
-    (parseSVG (opsK cd) ⟨some (n, ""), some (m, "px"), none⟩ [] [] lens).width = n := by
+    (parseSVG (opsK cd) ⟨some (n, "mm"), some (m, "mm"), none, ""⟩ [] [] lens).cw = n ∧
+    (parseSVG (opsK cd) ⟨some (n, "mm"), some (m, "mm"), none, ""⟩ [] [] lens).ch = m ∧
+    (parseSVG (opsK cd) ⟨some (n, ""), some (m, "px"), none, ""⟩ [] [] lens).cw = n * (254 / 10) / 96 ∧
+    (parseSVG (opsK cd) ⟨some (n, ""), some (m, "px"), none, ""⟩ [] [] lens).ch = m * (254 / 10) / 96 ∧
+    (parseSVG (opsK cd) ⟨some (n, ""), some (m, "px"), none, ""⟩ [] [] lens).width = n := by
   have hc : ∀ q : P K, (walk (opsK cd) (.elem "svg" [] []) q).cw = q.cw ∧ (walk (opsK cd) (.elem "svg" [] []) q).ch = q.ch
       ∧ (walk (opsK cd) (.elem "svg" [] []) q).width = q.width := by
     intro q
@@ -484,7 +498,7 @@ element records are the numbers the context holds for `stroke-dasharray`, i.e. u
 lengths are multiples of the stroke width: the importer divides by it); and the context keeps the SVG
 numbers for the descendants -/
 theorem dash_units (q : P K) (d : List (PCmd K)) (hf : hasFill q.ctx = true) (hw : 0 < q.ctx.sw)
-    (hcd : ∀ off l len, cd off l len = (l, true)) :
+    (hcd : ∀ w off l len, cd w off l len = (l, true)) :
     let r := drawShape (opsK cd) q "path" [.plain "d" (.path d)]
     (∀ L, r.layers = L :: q.layers → effectiveDashes L = q.ctx.dashes) ∧ r.ctx.dashes = q.ctx.dashes := by
   intro r
@@ -535,7 +549,7 @@ theorem dasharray_stored (q : P K) (ds : List K) :
 
 /-! ### a whole document against SVG 1.1 -/
 
-/-- `<svg viewBox="x0 y0 W H"><g transform="translate(tx,ty)"><rect x y width height fill=c/></g></svg>` -/
+/-- `<svg viewBox="x0 y0 W H" preserveAspectRatio="none"><g transform="translate(tx,ty)"><rect x y width height fill=c/></g></svg>` -/
 def rectDoc (tx ty x y w h : K) (c : RGBA) : List (Canvas.C19.Tree K) :=
   [.elem "g" [.plain "transform" (.xform [("translate", [tx, ty])])]
     [.elem "rect" [.plain "x" (.dim x ""), .plain "y" (.dim y ""), .plain "width" (.dim w ""),
@@ -547,13 +561,13 @@ outline, and a matrix that puts the local point (u,v) of the rect where SVG 1.1 
 (tx + x + u, ty + y + v): relative to the viewBox origin, scaled to mm, y measured downwards from the
 top edge of the canvas. -/
 theorem refines_spec_rect (x0 y0 W H tx ty x y w h : K) (c : RGBA) (hc : c.a ≠ 0) (hW : 0 < W) (hH : 0 < H) (lens : List K) :
-    let p := parseSVG (opsK cd) ⟨none, none, some (x0, y0, W, H)⟩ [] (rectDoc tx ty x y w h c) lens
+    let p := parseSVG (opsK cd) ⟨none, none, some (x0, y0, W, H), "none"⟩ [] (rectDoc tx ty x y w h c) lens
     p.cw = W * (254 / 10) / 96 ∧ p.ch = H * (254 / 10) / 96 ∧ p.err = false ∧
     ∃ L, p.layers = [L] ∧ L.fill = c ∧ L.evenOdd = false ∧ L.path = (rectangle (opsK cd) w h).reverse ∧
       ∀ u v : K, Matrix.Dot L.m ⟨u, v⟩ =
         ⟨(tx + x + u - x0) * (254 / 10) / 96, (H - (ty + y + v - y0)) * (254 / 10) / 96⟩ := by
   intro p
-  have hp : p = parseSVG (opsK cd) ⟨none, none, some (x0, y0, W, H)⟩ [] (rectDoc tx ty x y w h c) lens := rfl
+  have hp : p = parseSVG (opsK cd) ⟨none, none, some (x0, y0, W, H), "none"⟩ [] (rectDoc tx ty x y w h c) lens := rfl
   simp [parseSVG, parseViewBox, init, rectDoc, walk, walkList, push, pop, setStyling, applyRules, applyPlain, applyStyle,
     setAttribute, attrCore, withSty, sty, drawShape, drawShapeCore, dimAttr, lookup, parseDimension, drawPath, hasFill, hasStroke, parseTransform,
     xformStep, defaultCtx, opsK, arithK, hW, hH, hc, transparent, black] at hp
@@ -639,7 +653,7 @@ section NonVacuity
 @[instance_reducible] def envQ : Env ℚ := ⟨0, 0, 0, id, id, id, fun _ _ => 0, id, fun _ _ => 0, id, id, fun _ _ => 0, fun _ => false⟩
 attribute [local instance] envQ
 
-def cdId : ℚ → List ℚ → ℚ → List ℚ × Bool := fun _ l _ => (l, true)
+def cdId : ℚ → ℚ → List ℚ → ℚ → List ℚ × Bool := fun _ _ l _ => (l, true)
 theorem epsQ : (Env.epsilon : ℚ) = 0 := rfl
 
 -- shape_rect / shape_circle / shape_ellipse / shape_line: a 30 x 40 rect, radii 5 and 3
@@ -658,8 +672,8 @@ example : Point.PerpDot (psub (⟨4, 0⟩ : Pt ℚ) ⟨0, 0⟩) (psub ⟨0, 3⟩
   simp [Point.PerpDot, psub]
 -- dash_units: the default context with width 2 has a fill and a positive width; checkDash keeping the pattern exists
 example : hasFill ({ defaultCtx (opsK cdId) with sw := 2 } : CState ℚ) = true ∧
-    (∀ off l len, cdId off l len = (l, true)) := ⟨rfl, fun _ _ _ => rfl⟩
--- aspect_meet_partial: 200 x 100 viewport, viewBox 0 0 100 50
+    (∀ w off l len, cdId w off l len = (l, true)) := ⟨rfl, fun _ _ _ _ => rfl⟩
+-- fitViewBox_same: 200 x 100 viewport, viewBox 0 0 100 50
 example : (200 : ℚ) / 100 = 100 / 50 := by norm_num
 -- cascade_refines_spec_partial: `rect {…}` before `.k {…}` on <rect class="k">: specificities 1 ≤ 1024
 example : (matching ([⟨[[⟨false, "rect", []⟩]], []⟩, ⟨[[⟨false, "", [⟨2, "class", "k"⟩]⟩]], []⟩] : List (Rule ℚ))
